@@ -220,3 +220,537 @@ Lemma fdiv_by_zero x s :
     | S754_infinity sx | S754_finite sx _ _ => S754_infinity (xorb sx s)
     end.
 Proof. now destruct x. Qed.
+
+(* ------------------------------------------------------------------------------------ *)
+(* integers: below 2^53 in magnitude the model's arithmetic is exact                    *)
+(* ------------------------------------------------------------------------------------ *)
+
+Definition bZ (z : Z) : b64 :=
+  BinarySingleNaN.binary_normalize F64.prec F64.emax Hprec Hmax mode_NE z 0 false.
+
+Lemma B2SF_bZ z : B2SF (bZ z) = f_of_Z z.
+Proof. symmetry. apply binary_normalize_equiv. Qed.
+
+Lemma F2R_int z : F2R (Float radix2 z 0) = IZR z.
+Proof. unfold F2R. simpl. ring. Qed.
+
+Lemma fexp64_eq e : fexp64 e = Z.max (e - 53) (-1074).
+Proof. reflexivity. Qed.
+
+Lemma generic_int z : Z.abs z < 2 ^ 53 -> generic_format radix2 fexp64 (IZR z).
+Proof.
+  intro H. rewrite <- F2R_int. apply generic_format_F2R. intro Nz.
+  unfold cexp. rewrite fexp64_eq, F2R_int.
+  assert (mag radix2 (IZR z) <= 53)%Z.
+  { apply mag_le_bpow. now apply IZR_neq.
+    rewrite <- abs_IZR. change (bpow radix2 53) with (IZR (2 ^ 53)). now apply IZR_lt. }
+  lia.
+Qed.
+
+Lemma small_no_overflow r : (Rabs r < IZR (2 ^ 53))%R -> Rlt_bool (Rabs r) (bpow radix2 F64.emax) = true.
+Proof.
+  intro H. apply Rlt_bool_true. eapply Rlt_trans; [exact H|].
+  change (IZR (2 ^ 53)) with (bpow radix2 53). apply bpow_lt. reflexivity.
+Qed.
+
+Lemma bZ_correct z : Z.abs z < 2 ^ 53 ->
+  B2R (bZ z) = IZR z /\ BinarySingleNaN.is_finite (bZ z) = true /\ Bsign (bZ z) = (z <? 0).
+Proof.
+  intro H.
+  pose proof (binary_normalize_correct _ _ Hprec Hmax mode_NE z 0 false) as C.
+  cbv zeta in C. rewrite F2R_int in C.
+  change (round_mode mode_NE) with ZnearestE in C.
+  rewrite round_generic in C by (try apply valid_rnd_N; now apply generic_int).
+  rewrite small_no_overflow in C by (rewrite <- abs_IZR; now apply IZR_lt).
+  destruct C as (C1 & C2 & C3). fold (bZ z) in C1, C2, C3.
+  split; [exact C1|]. split; [exact C2|]. rewrite C3.
+  destruct (Rcompare_spec (IZR z) 0) as [L|E|G].
+  - apply lt_IZR in L. lia.
+  - apply eq_IZR in E. subst. reflexivity.
+  - apply lt_IZR in G. lia.
+Qed.
+
+Lemma bZ_plus a b : Z.abs a < 2 ^ 53 -> Z.abs b < 2 ^ 53 -> Z.abs (a + b) < 2 ^ 53 ->
+  Bplus mode_NE (bZ a) (bZ b) = bZ (a + b).
+Proof.
+  intros Ha Hb Hab.
+  destruct (bZ_correct a Ha) as (Ra & Fa & Sa). destruct (bZ_correct b Hb) as (Rb & Fb & Sb).
+  destruct (bZ_correct (a + b) Hab) as (Rc & Fc & Sc).
+  pose proof (Bplus_correct _ _ Hprec Hmax mode_NE (bZ a) (bZ b) Fa Fb) as C.
+  change (round_mode mode_NE) with ZnearestE in C.
+  rewrite Ra, Rb, <- plus_IZR in C.
+  rewrite round_generic in C by (try apply valid_rnd_N; now apply generic_int).
+  rewrite small_no_overflow in C by (rewrite <- abs_IZR; now apply IZR_lt).
+  destruct C as (C1 & C2 & C3).
+  apply B2R_Bsign_inj; auto; [congruence|].
+  rewrite C3, Sc, Sa, Sb.
+  destruct (Rcompare_spec (IZR (a + b)) 0) as [L|E|G].
+  - apply lt_IZR in L. lia.
+  - apply eq_IZR in E. lia.
+  - apply lt_IZR in G. lia.
+Qed.
+
+Lemma bZ_minus a b : Z.abs a < 2 ^ 53 -> Z.abs b < 2 ^ 53 -> Z.abs (a - b) < 2 ^ 53 ->
+  Bminus mode_NE (bZ a) (bZ b) = bZ (a - b).
+Proof.
+  intros Ha Hb Hab.
+  destruct (bZ_correct a Ha) as (Ra & Fa & Sa). destruct (bZ_correct b Hb) as (Rb & Fb & Sb).
+  destruct (bZ_correct (a - b) Hab) as (Rc & Fc & Sc).
+  pose proof (Bminus_correct _ _ Hprec Hmax mode_NE (bZ a) (bZ b) Fa Fb) as C.
+  change (round_mode mode_NE) with ZnearestE in C.
+  rewrite Ra, Rb, <- minus_IZR in C.
+  rewrite round_generic in C by (try apply valid_rnd_N; now apply generic_int).
+  rewrite small_no_overflow in C by (rewrite <- abs_IZR; now apply IZR_lt).
+  destruct C as (C1 & C2 & C3).
+  apply B2R_Bsign_inj; auto; [congruence|].
+  rewrite C3, Sc, Sa, Sb.
+  destruct (Rcompare_spec (IZR (a - b)) 0) as [L|E|G].
+  - apply lt_IZR in L. lia.
+  - apply eq_IZR in E. lia.
+  - apply lt_IZR in G. lia.
+Qed.
+
+(** on integers below 2^53 in magnitude, + and - of the model are exact *)
+Theorem fadd_int a b : Z.abs a < 2 ^ 53 -> Z.abs b < 2 ^ 53 -> Z.abs (a + b) < 2 ^ 53 ->
+  fadd (f_of_Z a) (f_of_Z b) = f_of_Z (a + b).
+Proof. intros. rewrite <- !B2SF_bZ, fadd_Bplus. now rewrite bZ_plus. Qed.
+
+Theorem fsub_int a b : Z.abs a < 2 ^ 53 -> Z.abs b < 2 ^ 53 -> Z.abs (a - b) < 2 ^ 53 ->
+  fsub (f_of_Z a) (f_of_Z b) = f_of_Z (a - b).
+Proof. intros. rewrite <- !B2SF_bZ, fsub_Bminus. now rewrite bZ_minus. Qed.
+
+Theorem fltb_int a b : Z.abs a < 2 ^ 53 -> Z.abs b < 2 ^ 53 ->
+  fltb (f_of_Z a) (f_of_Z b) = (a <? b).
+Proof.
+  intros Ha Hb.
+  destruct (bZ_correct a Ha) as (Ra & Fa & Sa). destruct (bZ_correct b Hb) as (Rb & Fb & Sb).
+  rewrite <- !B2SF_bZ. change (fltb (B2SF (bZ a)) (B2SF (bZ b))) with (Bltb (bZ a) (bZ b)).
+  rewrite Bltb_correct by auto. rewrite Ra, Rb.
+  destruct (Z.ltb_spec a b) as [L|G].
+  - apply Rlt_bool_true. now apply IZR_lt.
+  - apply Rlt_bool_false. now apply IZR_le.
+Qed.
+
+(* the integer behind a finite float whose real value is an integer *)
+Lemma abs_int_frac_int s m e z :
+  F2R (Float radix2 (cond_Zopp s (Zpos m)) e) = IZR z ->
+  let q := fst (abs_int_frac m e) in (if s then - q else q) = z.
+Proof.
+  unfold F2R. cbn [Fnum Fexp]. intro H. unfold abs_int_frac.
+  destruct e as [|p|p].
+  - cbn [fst]. simpl bpow in H. rewrite Rmult_1_r in H. apply eq_IZR in H.
+    destruct s; cbn in H; lia.
+  - cbn [fst]. rewrite <- IZR_Zpower in H by lia. rewrite <- mult_IZR in H. apply eq_IZR in H.
+    change (Zpower radix2 (Z.pos p)) with (2 ^ Z.pos p) in H.
+    destruct s; cbn [cond_Zopp] in H; lia.
+  - cbn [fst].
+    assert (H2 : (IZR (cond_Zopp s (Z.pos m)) = IZR z * bpow radix2 (Z.pos p))%R).
+    { rewrite <- H. rewrite Rmult_assoc, <- bpow_plus.
+      replace (Z.neg p + Z.pos p) with 0 by lia. simpl. ring. }
+    rewrite <- IZR_Zpower in H2 by lia. rewrite <- mult_IZR in H2. apply eq_IZR in H2.
+    change (Zpower radix2 (Z.pos p)) with (2 ^ Z.pos p) in H2.
+    assert (0 < 2 ^ Z.pos p) by (apply Z.pow_pos_nonneg; lia).
+    destruct s; cbn [cond_Zopp] in H2.
+    + replace (Z.pos m) with ((- z) * 2 ^ Z.pos p) by lia. rewrite Z.div_mul by lia. lia.
+    + rewrite H2. rewrite Z.div_mul by lia. reflexivity.
+Qed.
+
+Theorem Z_trunc_int z : Z.abs z < 2 ^ 53 -> Z_trunc (f_of_Z z) = Some z.
+Proof.
+  intro H. destruct (bZ_correct z H) as (Rz & Fz & Sz). rewrite <- B2SF_bZ.
+  destruct (bZ z) as [s|s| |s m e B]; try discriminate.
+  - cbn in *. apply eq_IZR in Rz. congruence.
+  - cbn [B2SF Z_trunc]. cbn [B2R] in Rz. pose proof (abs_int_frac_int s m e z Rz) as Q.
+    cbv zeta in Q. destruct (abs_int_frac m e) as [q fr]. cbn [fst] in Q. now rewrite Q.
+Qed.
+
+Theorem go_int_int z : Z.abs z < 2 ^ 53 -> go_int (f_of_Z z) = z.
+Proof.
+  intro H. unfold go_int. rewrite Z_trunc_int by exact H.
+  replace ((- 2 ^ 63 <=? z) && (z <? 2 ^ 63)) with true by lia. reflexivity.
+Qed.
+
+Lemma feqb_refl_finite x : F64.is_finite x = true -> feqb x x = true.
+Proof.
+  destruct x as [s|s| |s m e]; try discriminate; try reflexivity.
+  intros _. unfold feqb, SFeqb. cbn.
+  rewrite Z.compare_refl. change (Pos.compare_cont Eq m m) with (Pos.compare m m).
+  rewrite Pos.compare_refl. now destruct s.
+Qed.
+
+Theorem f_of_Z_finite z : Z.abs z < 2 ^ 53 -> F64.is_finite (f_of_Z z) = true.
+Proof.
+  intro H. destruct (bZ_correct z H) as (_ & Fz & _). now rewrite <- B2SF_bZ, finite_B2SF.
+Qed.
+
+Theorem ftrunc_int z : Z.abs z < 2 ^ 53 -> ftrunc (f_of_Z z) = f_of_Z z.
+Proof.
+  intro H. destruct (bZ_correct z H) as (Rz & Fz & Sz).
+  assert (E : B2SF (bZ z) = f_of_Z z) by apply B2SF_bZ.
+  destruct (bZ z) as [s|s| |s m e B]; try discriminate.
+  - rewrite <- E. reflexivity.
+  - rewrite <- E at 1. cbn [B2SF ftrunc]. destruct (0 <=? e) eqn:He; [exact E|].
+    cbn [B2R] in Rz. pose proof (abs_int_frac_int s m e z Rz) as Q.
+    cbv zeta in Q. destruct (abs_int_frac m e) as [q fr]. cbn [fst] in Q. rewrite Q.
+    assert (z <> 0).
+    { intro Z0. rewrite Z0 in Rz. apply eq_0_F2R in Rz. cbn in Rz. destruct s; discriminate. }
+    unfold f_of_Z, f_of_Zexp. destruct z; [congruence | reflexivity | reflexivity].
+Qed.
+
+Theorem f_is_integer_int z : Z.abs z < 2 ^ 53 -> f_is_integer (f_of_Z z) = true.
+Proof.
+  intro H. unfold f_is_integer. rewrite ftrunc_int by exact H.
+  apply feqb_refl_finite. now apply f_of_Z_finite.
+Qed.
+
+(* ---- x + 1 never overflows ---- *)
+Local Notation rnd := (round radix2 fexp64 ZnearestE).
+
+Lemma generic_B2R (b : b64) : generic_format radix2 fexp64 (B2R b).
+Proof. apply generic_format_B2R. Qed.
+
+Lemma plus_one_no_overflow (X : R) :
+  generic_format radix2 fexp64 X ->
+  (Rabs X <= bpow radix2 1024 - bpow radix2 971)%R ->
+  (Rabs (rnd (X + 1)) < bpow radix2 1024)%R.
+Proof.
+  intros GX BX.
+  assert (P971 : (0 < bpow radix2 971)%R) by apply bpow_gt_0.
+  assert (P55 : (bpow radix2 55 < bpow radix2 1024)%R) by (apply bpow_lt; reflexivity).
+  assert (E54 : bpow radix2 54 = 18014398509481984%R) by (simpl; lra).
+  assert (E55 : bpow radix2 55 = 36028797018963968%R) by (simpl; lra).
+  destruct (Rle_or_lt (Rabs X) (bpow radix2 54)) as [Small|Big].
+  - (* |X| <= 2^54 : |round (X+1)| <= 2^55 *)
+    apply Rle_lt_trans with (2 := P55).
+    apply abs_round_le_generic; try apply valid_rnd_N; try apply fexp_correct; try reflexivity.
+    + apply generic_format_bpow. rewrite fexp64_eq. lia.
+    + apply Rle_trans with (Rabs X + Rabs 1)%R; [apply Rabs_triang|]. rewrite Rabs_R1. lra.
+  - destruct (Rle_or_lt 0 X) as [Pos|Neg].
+    + (* X > 2^54 : round (X+1) <= X *)
+      rewrite Rabs_pos_eq in Big, BX by exact Pos.
+      assert (U : (4 <= ulp radix2 fexp64 X)%R).
+      { rewrite ulp_neq_0 by lra. change 4%R with (bpow radix2 2). apply bpow_le.
+        unfold cexp. rewrite fexp64_eq.
+        assert (55 <= mag radix2 X)%Z.
+        { apply mag_ge_bpow. change (55 - 1) with 54. rewrite Rabs_pos_eq by exact Pos. lra. }
+        lia. }
+      assert (Hi : (rnd (X + 1) <= X)%R).
+      { apply round_N_le_midp; [apply fexp_correct; reflexivity | exact GX |].
+        rewrite succ_eq_pos by exact Pos. lra. }
+      assert (Lo : (0 <= rnd (X + 1))%R).
+      { apply round_ge_generic; try apply valid_rnd_N; try (apply fexp_correct; reflexivity).
+        apply generic_format_0. lra. }
+      rewrite Rabs_pos_eq by exact Lo. lra.
+    + (* X < -2^54 : X <= round (X+1) <= 0 *)
+      rewrite Rabs_left in Big, BX by exact Neg.
+      assert (Hi : (rnd (X + 1) <= 0)%R).
+      { apply round_le_generic; try apply valid_rnd_N; try (apply fexp_correct; reflexivity).
+        apply generic_format_0. lra. }
+      assert (Lo : (X <= rnd (X + 1))%R).
+      { apply round_ge_generic; try apply valid_rnd_N; try (apply fexp_correct; reflexivity).
+        exact GX. lra. }
+      rewrite Rabs_left1 by exact Hi. lra.
+Qed.
+
+Lemma R_of_int z : Z.abs z < 2 ^ 53 -> R_of (f_of_Z z) = IZR z.
+Proof. intro H. rewrite <- B2SF_bZ, R_of_B2SF. now destruct (bZ_correct z H). Qed.
+
+Lemma valid_f_of_Z z : valid_f64 (f_of_Z z) = true.
+Proof. apply valid_f_of_Zexp. Qed.
+
+(** incrementing a finite float never overflows (near the top of the range x + 1 rounds back
+    to x): the loop of the range operator only ever produces finite numbers *)
+Theorem fadd_one_finite x :
+  valid_f64 x = true -> F64.is_finite x = true -> F64.is_finite (fadd x fone) = true.
+Proof.
+  intros Vx Fx.
+  assert (F1 : F64.is_finite fone = true) by reflexivity.
+  pose proof (fadd_ieee x fone Vx (valid_f_of_Z 1) Fx F1) as H. cbv zeta in H.
+  unfold fone in H at 1. rewrite R_of_int in H by (vm_compute; reflexivity).
+  destruct (valid_lift x Vx) as [bx Ex]. rewrite <- Ex in H. rewrite R_of_B2SF in H.
+  unfold no_overflow in H. rewrite Rlt_bool_true in H.
+  - rewrite <- Ex. apply H.
+  - apply plus_one_no_overflow; [apply generic_B2R|].
+    apply (abs_B2R_le_emax_minus_prec F64.prec F64.emax Hprec bx).
+Qed.
+
+
+(* ------------------------------------------------------------------------------------ *)
+(* the operators of the evaluator (property C03)                                         *)
+(* ------------------------------------------------------------------------------------ *)
+From JV.Model Require Import Value Ops Eval.
+From JV.Proofs Require Import C03Proofs.
+Import ListNotations.
+
+Definition real_op (o : numop) (a b : R) : R :=
+  match o with
+  | NumAdd => a + b
+  | NumSub => a - b
+  | NumMul => a * b
+  | NumDiv => a / b
+  | NumMod => 0
+  end%R.
+
+(** + - * / on two finite numbers: the IEEE-754 binary64 result, i.e. the exact real result
+    rounded to nearest-even — returned as a (finite, valid) number when the rounded result is
+    below 2^1024 in magnitude, reported as ErrNumberInf otherwise; never a non-finite value. *)
+Theorem C03_arith_ieee : forall o x y,
+  o <> NumMod ->
+  valid_f64 x = true -> valid_f64 y = true ->
+  F64.is_finite x = true -> F64.is_finite y = true ->
+  (o = NumDiv -> R_of y <> 0%R) ->
+  let r := round64 (real_op o (R_of x) (R_of y)) in
+  if no_overflow r
+  then exists z, numeric_result o (Some (VNum x)) (Some (VNum y)) = inl (Some (VNum z)) /\
+                 R_of z = r /\ F64.is_finite z = true /\ valid_f64 z = true
+  else numeric_result o (Some (VNum x)) (Some (VNum y)) = inr (EEval ErrNumberInf).
+Proof.
+  intros o x y No Vx Vy Fx Fy Ny r. rewrite C03_arith_value. cbv zeta. subst r.
+  destruct o; try congruence; cbn [real_op num_apply].
+  - pose proof (fadd_ieee x y Vx Vy Fx Fy) as H. cbv zeta in H.
+    destruct (no_overflow _).
+    + destruct H as [H1 H2]. exists (fadd x y). rewrite H2. auto using valid_fadd.
+    + destruct (fadd x y); try discriminate; reflexivity.
+  - pose proof (fsub_ieee x y Vx Vy Fx Fy) as H. cbv zeta in H.
+    destruct (no_overflow _).
+    + destruct H as [H1 H2]. exists (fsub x y). rewrite H2. auto using valid_fsub.
+    + destruct (fsub x y); try discriminate; reflexivity.
+  - pose proof (fmul_ieee x y Vx Vy Fx Fy) as H. cbv zeta in H.
+    destruct (no_overflow _).
+    + destruct H as [H1 H2]. exists (fmul x y). rewrite H2. auto using valid_fmul.
+    + destruct (fmul x y); try discriminate; reflexivity.
+  - pose proof (fdiv_ieee x y Vx Vy Fx Fy (Ny eq_refl)) as H. cbv zeta in H.
+    destruct (no_overflow _).
+    + destruct H as [H1 H2]. exists (fdiv x y). rewrite H2. auto using valid_fdiv.
+    + destruct (fdiv x y); try discriminate; reflexivity.
+Qed.
+Print Assumptions C03_arith_ieee.
+
+(** division by (either) zero: an error, NumberInf for a non-zero dividend, NumberNaN for 0/0;
+    the remainder by zero is NumberNaN *)
+Theorem C03_div_zero : forall x s,
+  F64.is_finite x = true ->
+  numeric_result NumDiv (Some (VNum x)) (Some (VNum (S754_zero s))) =
+    inr (EEval (if is_zero x then ErrNumberNaN else ErrNumberInf)) /\
+  numeric_result NumMod (Some (VNum x)) (Some (VNum (S754_zero s))) = inr (EEval ErrNumberNaN).
+Proof. intros [sx|sx| |sx m e] s F; try discriminate; split; reflexivity. Qed.
+
+Example C03_arith_ieee_ex :
+  (* 0.1 + 0.2 = 0.30000000000000004 : the sum is rounded, not exact *)
+  numeric_result NumAdd (Some (VNum (fdiv fone (f_of_Z 10)))) (Some (VNum (fdiv (f_of_Z 2) (f_of_Z 10)))) =
+    inl (Some (VNum (f_of_bits 0x3FD3333333333334))) /\
+  fdiv (f_of_Z 3) (f_of_Z 10) = f_of_bits 0x3FD3333333333333.
+Proof. vm_compute. split; reflexivity. Qed.
+
+(* ---- the range operator on integers below 2^53: exactly the integers from a to b ---- *)
+Lemma range_items_int n : forall a,
+  - 2 ^ 53 < a -> a + Z.of_nat n <= 2 ^ 53 ->
+  range_items n (f_of_Z a) = map (fun k => VNum (f_of_Z (a + Z.of_nat k))) (seq 0 n).
+Proof.
+  induction n as [|n IH]; intros a Ha Hn; [reflexivity|].
+  cbn [range_items seq map]. rewrite Z.add_0_r. f_equal.
+  destruct n as [|n']; [reflexivity|].
+  change fone with (f_of_Z 1). rewrite fadd_int by lia. rewrite IH by lia.
+  rewrite <- seq_shift, map_map. apply map_ext. intro k. do 2 f_equal. lia.
+Qed.
+
+Theorem C03_range_exact : forall za zb,
+  Z.abs za < 2 ^ 53 -> Z.abs zb < 2 ^ 53 -> zb - za < 2 ^ 53 ->
+  range_result (Some (VNum (f_of_Z za))) (Some (VNum (f_of_Z zb))) =
+    if zb <? za then inl None
+    else if max_range_items <? zb - za + 1 then inr (EEval ErrMaxRangeItems)
+    else inl (Some (VArr (map (fun k => VNum (f_of_Z (za + Z.of_nat k)))
+                              (seq 0 (Z.to_nat (zb - za + 1)))))).
+Proof.
+  intros za zb Ha Hb Hd. rewrite C03_range. cbv zeta.
+  rewrite !f_is_integer_int by assumption. cbn [negb].
+  rewrite fltb_int by assumption.
+  destruct (Z.ltb_spec zb za) as [L|G]; [reflexivity|].
+  rewrite fsub_int by lia. rewrite go_int_int by lia.
+  replace (zb - za + 1 <? 0) with false by lia. cbn [orb].
+  destruct (max_range_items <? zb - za + 1) eqn:Em; [reflexivity|].
+  rewrite range_items_int by lia. reflexivity.
+Qed.
+Print Assumptions C03_range_exact.
+
+Example C03_range_exact_ex :
+  range_result (Some (VNum (f_of_Z (-2)))) (Some (VNum (f_of_Z 1))) =
+    inl (Some (VArr [VNum (f_of_Z (-2)); VNum (f_of_Z (-1)); VNum (f_of_Z 0); VNum (f_of_Z 1)])).
+Proof. rewrite C03_range_exact by (vm_compute; reflexivity). reflexivity. Qed.
+
+(** whatever the (finite) bounds, every member of a range is a finite number *)
+Theorem range_items_finite n : forall a,
+  valid_f64 a = true -> F64.is_finite a = true ->
+  forallb value_finite (range_items n a) = true.
+Proof.
+  induction n as [|n IH]; intros a Va Fa; [reflexivity|].
+  cbn [range_items forallb]. cbn [value_finite]. rewrite Fa. cbn [andb].
+  apply IH; [apply valid_fadd; [exact Va | apply valid_f_of_Z] | now apply fadd_one_finite].
+Qed.
+
+
+(* ------------------------------------------------------------------------------------ *)
+(* % : the exact truncated remainder, with the sign of the dividend                      *)
+(* ------------------------------------------------------------------------------------ *)
+
+Lemma bounded_facts m e :
+  SpecFloat.bounded F64.prec F64.emax m e = true -> Z.pos m < 2 ^ 53 /\ -1074 <= e <= 971.
+Proof.
+  unfold SpecFloat.bounded, SpecFloat.canonical_mantissa. intro H.
+  apply andb_true_iff in H as [H1 H2]. apply Zeq_bool_eq in H1. apply Zle_bool_imp_le in H2.
+  change (F64.emax - F64.prec) with 971 in H2. rewrite fexp64_eq in H1.
+  pose proof (Zdigits_correct radix2 (Z.pos m)) as D. rewrite <- Zpos_digits2_pos in D.
+  set (d := Z.pos (digits2_pos m)) in *.
+  assert (d <= 53) by lia.
+  split; [|lia].
+  apply Z.lt_le_trans with (radix2 ^ d); [simpl Z.abs in D; lia|].
+  change (radix2 ^ d) with (2 ^ d). apply Z.pow_le_mono_r; lia.
+Qed.
+
+Lemma mag_int_le m : m <> 0 -> Z.abs m < 2 ^ 53 -> (mag radix2 (IZR m) <= 53)%Z.
+Proof.
+  intros Nz H. apply mag_le_bpow. now apply IZR_neq.
+  rewrite <- abs_IZR. change (bpow radix2 53) with (IZR (2 ^ 53)). now apply IZR_lt.
+Qed.
+
+Lemma generic_small m e : Z.abs m < 2 ^ 53 -> -1074 <= e ->
+  generic_format radix2 fexp64 (F2R (Float radix2 m e)).
+Proof.
+  intros Hm He. apply generic_format_F2R. intro Nz.
+  unfold cexp. rewrite mag_F2R by exact Nz. rewrite fexp64_eq.
+  pose proof (mag_int_le m Nz Hm). lia.
+Qed.
+
+Lemma sign_bit_B2SF (b : b64) : sign_bit (B2SF b) = Bsign b.
+Proof. now destruct b. Qed.
+
+(* m * 2^e with |m| < 2^53 and e in the exponent range is represented exactly *)
+Lemma f_of_Zexp_exact m e s : Z.abs m < 2 ^ 53 -> -1074 <= e <= 971 ->
+  R_of (f_of_Zexp m e s) = F2R (Float radix2 m e) /\
+  F64.is_finite (f_of_Zexp m e s) = true /\
+  sign_bit (f_of_Zexp m e s) = (if m =? 0 then s else m <? 0).
+Proof.
+  intros Hm He. unfold f_of_Zexp. rewrite binary_normalize_equiv.
+  rewrite R_of_B2SF, finite_B2SF, sign_bit_B2SF.
+  pose proof (binary_normalize_correct _ _ Hprec Hmax mode_NE m e s) as C. cbv zeta in C.
+  change (round_mode mode_NE) with ZnearestE in C.
+  rewrite round_generic in C by (try apply valid_rnd_N; apply generic_small; lia).
+  rewrite Rlt_bool_true in C.
+  - destruct C as (C1 & C2 & C3). split; [exact C1|]. split; [exact C2|]. rewrite C3.
+    destruct (Rcompare_spec (F2R (Float radix2 m e)) 0) as [L|E|G].
+    + apply lt_0_F2R in L. replace (m =? 0) with false by lia. lia.
+    + apply eq_0_F2R in E. subst m. reflexivity.
+    + apply gt_0_F2R in G. replace (m =? 0) with false by lia. lia.
+  - rewrite <- F2R_Zabs.
+    apply Rlt_le_trans with (F2R (Float radix2 (2 ^ 53) e)); [now apply F2R_lt|].
+    unfold F2R. cbn [Fnum Fexp]. change (IZR (2 ^ 53)) with (bpow radix2 53).
+    rewrite <- bpow_plus. apply bpow_le. change F64.emax with 1024. lia.
+Qed.
+
+Definition sgn (s : bool) : R := if s then (-1)%R else 1%R.
+
+(** x % y for finite x and finite non-zero y: the result r is finite, has the sign bit of the
+    dividend, and  r = x - sgn(x)·q·|y|  for a natural number q with |r| < |y| — exactly (no
+    rounding): the truncated remainder (q = trunc(|x| / |y|)). *)
+Theorem fmod_exact x y :
+  valid_f64 x = true -> valid_f64 y = true ->
+  F64.is_finite x = true -> F64.is_finite y = true -> is_zero y = false ->
+  F64.is_finite (fmod x y) = true /\
+  sign_bit (fmod x y) = sign_bit x /\
+  exists q : Z, 0 <= q /\
+    R_of (fmod x y) = (R_of x - sgn (sign_bit x) * IZR q * Rabs (R_of y))%R /\
+    (Rabs (R_of (fmod x y)) < Rabs (R_of y))%R.
+Proof.
+  intros Vx Vy Fx Fy Ny.
+  destruct y as [sy|sy| |sy my ey]; try discriminate.
+  destruct x as [sx|sx| |sx mx ex]; try discriminate.
+  - (* x = ±0 *)
+    cbn [fmod]. split; [reflexivity|]. split; [reflexivity|]. exists 0. split; [lia|].
+    unfold R_of. cbn [SF2R]. split.
+    + simpl. ring.
+    + rewrite Rabs_R0. apply Rabs_pos_lt. apply F2R_neq_0. now destruct sy.
+  - (* both finite and non-zero *)
+    apply bounded_facts in Vx as [Mx Ex]. apply bounded_facts in Vy as [My Ey].
+    cbn [fmod]. set (e := Z.min ex ey).
+    set (X := Z.pos mx * 2 ^ (ex - e)). set (Y := Z.pos my * 2 ^ (ey - e)).
+    assert (Px : 0 < 2 ^ (ex - e)) by (apply Z.pow_pos_nonneg; lia).
+    assert (Py : 0 < 2 ^ (ey - e)) by (apply Z.pow_pos_nonneg; lia).
+    assert (HX : 0 < X) by (unfold X; lia). assert (HY : 0 < Y) by (unfold Y; lia).
+    pose proof (Z.mod_pos_bound X Y HY) as HR.
+    pose proof (Z.div_mod X Y ltac:(lia)) as HD.
+    pose proof (Z.div_pos X Y ltac:(lia) HY) as HQ.
+    set (Rm := X mod Y) in *. set (q := X / Y) in *.
+    assert (RX : Rm <= X) by (unfold Rm; apply Z.mod_le; lia).
+    assert (R53 : Rm < 2 ^ 53).
+    { destruct (Z.le_ge_cases ex ey) as [L|G].
+      - assert (e = ex) by (unfold e; lia). unfold X in RX. replace (ex - e) with 0 in RX by lia.
+        simpl in RX. lia.
+      - assert (e = ey) by (unfold e; lia). unfold Y in HR. replace (ey - e) with 0 in HR by lia.
+        simpl in HR. lia. }
+    destruct (f_of_Zexp_exact (if sx then - Rm else Rm) e sx) as (V1 & V2 & V3);
+      [destruct sx; lia | unfold e; lia |].
+    split; [exact V2|]. split.
+    { rewrite V3. cbn [sign_bit]. destruct sx.
+      - destruct (Z.eqb_spec (- Rm) 0); [reflexivity | lia].
+      - destruct (Z.eqb_spec Rm 0); [reflexivity | lia]. }
+    exists q. split; [exact HQ|]. rewrite V1.
+    (* real values of x and |y| over the common exponent e *)
+    assert (RXe : R_of (S754_finite sx mx ex) = (sgn sx * IZR X * bpow radix2 e)%R).
+    { unfold R_of. cbn [SF2R]. rewrite F2R_cond_Zopp.
+      rewrite (F2R_change_exp radix2 e _ ex) by (unfold e; lia).
+      unfold F2R. cbn [Fnum Fexp].
+      change (Z.pos mx * radix2 ^ (ex - e)) with X. destruct sx; unfold sgn, cond_Ropp; ring. }
+    assert (RYe : Rabs (R_of (S754_finite sy my ey)) = (IZR Y * bpow radix2 e)%R).
+    { unfold R_of. cbn [SF2R]. rewrite <- F2R_Zabs.
+      replace (Z.abs (cond_Zopp sy (Z.pos my))) with (Z.pos my) by (destruct sy; reflexivity).
+      rewrite (F2R_change_exp radix2 e _ ey) by (unfold e; lia).
+      unfold F2R. cbn [Fnum Fexp]. reflexivity. }
+    assert (RRe : F2R (Float radix2 (if sx then - Rm else Rm) e) = (sgn sx * IZR Rm * bpow radix2 e)%R).
+    { unfold F2R. cbn [Fnum Fexp]. destruct sx; unfold sgn; rewrite ?opp_IZR; ring. }
+    rewrite RXe, RYe, RRe. cbn [sign_bit].
+    assert (Pe : (0 < bpow radix2 e)%R) by apply bpow_gt_0.
+    split.
+    + replace X with (Y * q + Rm) by lia. rewrite plus_IZR, mult_IZR. ring.
+    + rewrite !Rabs_mult. rewrite (Rabs_pos_eq (bpow radix2 e)) by lra.
+      replace (Rabs (sgn sx)) with 1%R by (destruct sx; unfold sgn, Rabs; destruct (Rcase_abs _); lra).
+      rewrite Rmult_1_l. rewrite <- abs_IZR. apply Rmult_lt_compat_r; [exact Pe|].
+      apply IZR_lt. lia.
+Qed.
+Print Assumptions fmod_exact.
+
+Example fmod_exact_ex :
+  fmod (f_of_Z (-7)) (f_of_Z 3) = f_of_Z (-1) /\ fmod (f_of_Z 7) (f_of_Z (-3)) = f_of_Z 1 /\
+  fmod (f_of_Z (-6)) (f_of_Z 3) = fnzero /\
+  fmod (fdiv (f_of_Z 11) (f_of_Z 2)) (f_of_Z 2) = fdiv (f_of_Z 3) (f_of_Z 2).
+Proof. vm_compute. repeat split. Qed.
+
+(* ------------------------------------------------------------------------------------ *)
+(* comparisons and negation in terms of the real values                                  *)
+(* ------------------------------------------------------------------------------------ *)
+
+Theorem fltb_real x y :
+  valid_f64 x = true -> valid_f64 y = true -> F64.is_finite x = true -> F64.is_finite y = true ->
+  fltb x y = Rlt_bool (R_of x) (R_of y).
+Proof.
+  intros Vx Vy Fx Fy.
+  destruct (valid_lift x Vx) as [bx <-]. destruct (valid_lift y Vy) as [by_ <-].
+  rewrite finite_B2SF in Fx, Fy. rewrite !R_of_B2SF.
+  change (fltb (B2SF bx) (B2SF by_)) with (Bltb bx by_). now apply Bltb_correct.
+Qed.
+
+Theorem feqb_real x y :
+  valid_f64 x = true -> valid_f64 y = true -> F64.is_finite x = true -> F64.is_finite y = true ->
+  feqb x y = Req_bool (R_of x) (R_of y).
+Proof.
+  intros Vx Vy Fx Fy.
+  destruct (valid_lift x Vx) as [bx <-]. destruct (valid_lift y Vy) as [by_ <-].
+  rewrite finite_B2SF in Fx, Fy. rewrite !R_of_B2SF.
+  change (feqb (B2SF bx) (B2SF by_)) with (Beqb bx by_). now apply Beqb_correct.
+Qed.
+
+Theorem fopp_real x : R_of (fopp x) = (- R_of x)%R.
+Proof.
+  destruct x as [s|s| |s m e]; unfold R_of; cbn [fopp SFopp SF2R]; try (symmetry; apply Ropp_0).
+  rewrite <- F2R_Zopp. f_equal. f_equal. now destruct s.
+Qed.
+Print Assumptions fltb_real.
